@@ -124,36 +124,34 @@ def r11_2(run):
            "the five mode codes are distinct and non-zero (0 = no mode): %s" % codes, run.where(ci, ci.node))
     f = ci.methods["create_component_array"]
     run.analysed(f)
-    # masks: name -> user column
-    colof = {}
-    for n in own_walk(f.node):
-        if isinstance(n, ast.Assign) and isinstance(n.targets[0], ast.Name):
-            v = n.value
-            if isinstance(v, ast.Attribute) and v.attr == "values" and isinstance(v.value, ast.Attribute):
-                colof[n.targets[0].id] = v.value.attr
-    notnan = set()
-    for n in own_walk(f.node):
-        if isinstance(n, ast.Assign) and isinstance(n.targets[0], ast.Name):
-            s = U(n.value).replace(" ", "")
-            if s == "~np.isnan(%s)" % n.targets[0].id:
-                notnan.add(n.targets[0].id)
+    # whole-function terms: `arr[<mask>, cls.MODE] = cls.<CODE>` with <mask> a conjunction of `~isnan(<table>.<column>.values)`
+    from ..arrnf import ANF as _ANF, conjuncts as _conj
+    ra = _ANF(ix, f).run()
+
+    def given_column(t):
+        """column name when t is ~np.isnan(<table>.<col>.values) / ~np.isnan(<table>[<col>].values)"""
+        if not (t[0] == "u" and t[1] == "~" and t[2][0] == "call" and t[2][1] == ("x", "numpy.isnan") and len(t[2][2]) == 1):
+            return None
+        v = t[2][2][0]
+        while v[0] == "attr" and v[2] == "values":
+            v = v[1]
+        if v[0] == "attr":
+            return v[2]
+        if v[0] == "idx" and len(v[2]) == 1 and v[2][0][0] == "c":
+            return v[2][0][1]
+        return None
     assigned = {}
-    for n in own_walk(f.node):
-        if isinstance(n, ast.Assign) and isinstance(n.targets[0], ast.Subscript) and isinstance(n.targets[0].slice, ast.Tuple):
-            sl = n.targets[0].slice
-            if U(sl.elts[1]) == "cls.MODE" and isinstance(n.value, ast.Attribute) and U(n.value.value) == "cls":
-                m = sl.elts[0]
-                names = set()
-                if isinstance(m, ast.BinOp) and isinstance(m.op, ast.BitAnd):
-                    names = {U(m.left), U(m.right)}
-                assigned[n.value.attr] = (names, n)
+    for e in ra.stores():
+        if len(e.index) == 2 and e.index[1] == ("attr", ("n", "cls"), "MODE") and e.value[0] == "attr" and e.value[1] == ("n", "cls"):
+            cols_ = [given_column(x) for x in _conj(e.index[0])]
+            assigned[e.value[2]] = (cols_, e)
     for mode, want in EXPECT_INPUTS.items():
         ok = mode in assigned
         got = None
         if ok:
-            names, node = assigned[mode]
-            ok = names <= notnan and {colof.get(x) for x in names} == want
-            got = {colof.get(x) for x in names}
+            cols_, ev_ = assigned[mode]
+            ok = None not in cols_ and set(cols_) == want
+            got = set(cols_)
         run.ob("mode-assignment|%s" % mode, ok,
                "mode %s is assigned where exactly %s are given (not NaN)" % (mode, sorted(want)), run.where(f, f.node),
                detail="assigned under %s" % got)
